@@ -299,7 +299,7 @@ class QueryCreator(BaseQueryCreator):
                         attr = Document.rdf_map(i[0])
                         if i[0] == "id":
                             # The id is not exported as attribute, it names the node.
-                            self.query += "FILTER (?d = <{0}{1}>) .\n".format(odml_uri, i[1])
+                            self.query += "FILTER (str(?d) = \"{0}{1}\") .\n".format(odml_uri, i[1])
                         elif attr:
                             re_sub = re.sub(odml_uri, "odml:", attr)
                             # Dates and numbers are exported as typed literals; the
@@ -320,7 +320,7 @@ class QueryCreator(BaseQueryCreator):
                         attr = Section.rdf_map(i[0])
                         if i[0] == "id":
                             # The id is not exported as attribute, it names the node.
-                            self.query += "FILTER (?s = <{0}{1}>) .\n".format(odml_uri, i[1])
+                            self.query += "FILTER (str(?s) = \"{0}{1}\") .\n".format(odml_uri, i[1])
                         elif attr:
                             re_sub = re.sub(odml_uri, "odml:", attr)
                             # Dates and numbers are exported as typed literals; the
@@ -349,7 +349,7 @@ class QueryCreator(BaseQueryCreator):
                         attr = Property.rdf_map(i[0])
                         if i[0] == "id":
                             # The id is not exported as attribute, it names the node.
-                            self.query += "FILTER (?p = <{0}{1}>) .\n".format(odml_uri, i[1])
+                            self.query += "FILTER (str(?p) = \"{0}{1}\") .\n".format(odml_uri, i[1])
                         elif attr:
                             re_sub = re.sub(odml_uri, "odml:", attr)
                             # Dates and numbers are exported as typed literals; the
